@@ -547,6 +547,11 @@ class Schema(ResolverMap):
             query_type=self.query_type,
             mutation_type=self.mutation_type,
             subscription_type=self.subscription_type,
+            # Types and directives that cannot be reached from the root types
+            # (implementers of an interface, types only used by a directive)
+            # belong to the schema all the same.
+            types=list(self.types.values()),
+            directives=list(self.directives.values()),
             nodes=self.nodes,
         )
 
